@@ -879,5 +879,5 @@ func c12Gen(g *G) {
 }
 
 func init() {
-	register(&Prop{Name: "c12", Gen: c12Gen, Exec: c12Exec, Judge: c12Judge, Setup: c12Setup, Teardown: c12Teardown})
+	register(&Prop{Name: "c12", Stateless: true, Gen: c12Gen, Exec: c12Exec, Judge: c12Judge, Setup: c12Setup, Teardown: c12Teardown})
 }
